@@ -460,6 +460,9 @@ def shrink(stage, pid, prop, bad, budget_s=90):
             break
         res, _ = evaluate_cases(stage, pid, prop, cands)
         for r in res:
+            raised = lambda o: isinstance(o, dict) and "exc" in o  # noqa: E731
+            if raised(r["out"]) != raised(cur["out"]):
+                continue      # a candidate that fails in ANOTHER way (the implementation now raises / no longer raises) is not a smaller instance
             if r["flags"] is not None and not (r["flags"] & 2) and bool(r["flags"] & 4) == bool(cur["flags"] & 4):
                 cur = r
                 improved = True
